@@ -22,7 +22,7 @@ import (
 type fieldFacts struct {
 	glob    map[*ssa.Global]*ssa.Function // package-level func variables; nil value: not unique
 	fn      map[*types.Var]*ssa.Function  // nil value: not unique
-	concr   map[*types.Var]types.Type    // nil value: not unique
+	concr   map[*types.Var]types.Type     // nil value: not unique
 	hasFn   map[*types.Var]bool
 	hasConc map[*types.Var]bool
 }
